@@ -1,6 +1,8 @@
 """C04 — PCovR interpolates optimally and monotonically between PCA and regression."""
 import multiprocessing as mp
 
+import warnings
+
 import numpy as np
 
 from harness import core
@@ -63,6 +65,21 @@ def gen(args):
             rec["comp"] = [P.fq(c) for c in comps if c.shape == (n, k)]
             if a == 8:
                 rec["pcaV"] = P.fq(Vt[:k].T)
+                # the other forms of n_components (a fraction of the variance, 'mle') given to PCA and to PCovR at mixing = 1
+                try:
+                    from sklearn.decomposition import PCA
+                    from skmatter.decomposition import PCovR
+                    # ('mle' only for tall data of full column rank: on rank-deficient data PCovR's dimension estimate fails with
+                    # "math domain error" where PCA answers - a rejected request, which this property does not speak about)
+                    mle_ok = n > m and np.linalg.matrix_rank(X) == m
+                    req = [0.45, 0.55, 0.65, 0.85, 0.93][int(rng.integers(5))] if (not mle_ok or rng.random() < 0.6) else "mle"
+                    with warnings.catch_warnings():
+                        warnings.simplefilter("ignore")
+                        kp = int(PCA(n_components=req, svd_solver="full").fit(X).n_components_)
+                        kc = int(PCovR(mixing=1.0, n_components=req, space=space, svd_solver="full", tol=1e-12, regressor=P.regressor_for(route)).fit(X, Yi / 4.0).n_components_)
+                    rec["kform"] = [kp, kc]
+                except Exception as e_:  # noqa
+                    rec["kform_msg"] = "%s: %s" % (type(e_).__name__, str(e_)[:100])      # not probed
             if a == 0 and route == "lr":
                 rec["lrW"] = P.fq(rec["_W"])
             chain.append(len(fits) + 1)
